@@ -9,11 +9,11 @@
 //	cl <ref> <size> <pnref> set|add|del <attr> <val> <date>   attribute claim
 //	del <ref> <size> <pnref> <date>                    delete claim on a permanode
 //	bytes <ref> <size> <content>                       plain blob
-//	file <ref> <size> <name> <wholeref> <mtime>        file schema blob with one part (= wholeref)
+//	file <ref> <size> <name> <wholeref> <mtime> <mime> file schema blob with one part (= wholeref); <mime> declares the MIME type the index sniffs
 //	dir <ref> <size> <name> <ssref> <sssize> <child,child,…|->   static-set + directory
 //	    each of these uploads the blob(s) to the real index; the answer is "ok" when the blob ref
 //	    and size the real code computed are the ones on the line ("refmismatch" otherwise).
-//	    file additionally prints what the corpus knows: "ok <fsize> <mime> <time> <modtime> <wholeref>"
+//	    file additionally checks that the corpus FileInfo is {name, size of the part, <mime>, time = <mtime>, no separate modtime, wholeref}
 //	ctime <pnref> <t|none>                             declares Corpus.PermanodeTime(pn) for the model;
 //	    the implementation answers "ok" iff the corpus agrees
 //	times                                              "<any|none>/<mod|none>" for every permanode, in upload order
@@ -224,7 +224,7 @@ func (w *world) exec(words []string) string {
 		w.pns = append(w.pns, words[1])
 		return "ok"
 	case "cl":
-		if len(words) != 9 {
+		if len(words) != 8 {
 			return "bad-op"
 		}
 		size, ok := w.fresh(words[1], words[2])
@@ -240,7 +240,7 @@ func (w *world) exec(words []string) string {
 			return "bad-op"
 		}
 		d, ok := w.dateOK(words[7], pn)
-		if !ok || words[8] != "." {
+		if !ok {
 			return "bad-op"
 		}
 		if !w.add(w.bClaim(blob.MustParse(pn), words[4], string(attr), string(val), d), words[1], size, "claim") {
@@ -281,40 +281,38 @@ func (w *world) exec(words []string) string {
 		}
 		return "ok"
 	case "file":
-		if len(words) != 6 {
+		if len(words) != 7 {
 			return "bad-op"
 		}
 		size, ok := w.fresh(words[1], words[2])
 		name, ok1 := hk.UnHex(words[3])
 		whole := words[4]
 		mtime, ok2 := natArg(words[5])
-		if !ok || !ok1 || !ok2 || w.known[whole] != "bytes" {
+		mime, ok3 := hk.UnHex(words[6])
+		if !ok || !ok1 || !ok2 || !ok3 || w.known[whole] != "bytes" {
 			return "bad-op"
 		}
 		if !w.add(bFile(string(name), blob.MustParse(whole), w.size[whole], mtime), words[1], size, "file") {
 			return "refmismatch"
 		}
+		// what the model derives from the line must be what the corpus has
 		w.idx.RLock()
 		defer w.idx.RUnlock()
 		fi, err := w.corpus.GetFileInfo(ctxbg, blob.MustParse(words[1]))
 		if err != nil {
 			return "nofileinfo"
 		}
-		ft, fm := "none", "none"
+		var ft, fm int64
 		if fi.Time != nil {
-			ft = strconv.FormatInt(fi.Time.Time().Unix(), 10)
+			ft = fi.Time.Time().Unix()
 		}
 		if fi.ModTime != nil {
-			fm = strconv.FormatInt(fi.ModTime.Time().Unix(), 10)
+			fm = fi.ModTime.Time().Unix()
 		}
-		wr := "-"
-		if fi.WholeRef.Valid() {
-			wr = fi.WholeRef.String()
+		if fi.FileName != string(name) || fi.Size != int64(w.size[whole]) || fi.MIMEType != string(mime) || ft != mtime || fm != 0 || fi.WholeRef.String() != whole {
+			return fmt.Sprintf("infomismatch size=%d mime=%s time=%d mod=%d whole=%v", fi.Size, hx(fi.MIMEType), ft, fm, fi.WholeRef)
 		}
-		if fi.FileName != string(name) {
-			return "namemismatch"
-		}
-		return fmt.Sprintf("ok %d %s %s %s %s", fi.Size, hx(fi.MIMEType), ft, fm, wr)
+		return "ok"
 	case "dir":
 		if len(words) != 7 {
 			return "bad-op"
